@@ -540,7 +540,28 @@ func sortedKeys[V any](m map[string]V) []string {
 	return ks
 }
 
-func typeStr(t types.Type) string { return shortName(types.TypeString(t, nil)) }
+// typeSubst: the type arguments of the generic helpers entered on the current decision path, by type parameter
+// (`narrowCoerced[W](x, err, int64FromInt)` entered with W = int): a type printed while looking through such a helper
+// is printed as instantiated. Dynamic scope, like substEnv; set by the path engine when it enters an instantiation.
+var typeSubst = map[*types.TypeParam]types.Type{}
+
+func typeStr(t types.Type) string {
+	if len(typeSubst) > 0 {
+		switch x := types.Unalias(t).(type) {
+		case *types.TypeParam:
+			if a, ok := typeSubst[x]; ok {
+				return typeStr(a)
+			}
+		case *types.Pointer:
+			if tp, ok := types.Unalias(x.Elem()).(*types.TypeParam); ok {
+				if a, ok := typeSubst[tp]; ok {
+					return "*" + typeStr(a)
+				}
+			}
+		}
+	}
+	return shortName(types.TypeString(t, nil))
+}
 
 var _ = strings.Contains
 
